@@ -170,6 +170,17 @@ def _batch(run, prog, cls, method, original):
               "acc[feature] += c_in - new; c_out = new")
     init_ok = A[0] == "comp" and A[1] == "dict" and A[3] == FEATURE_NAMES and A[4] == ("elem", A[2]) and \
         const_value(A[5]) == 0 and not A[6]
+    if not init_ok and A[0] == "new" and A[2] == "dict" and not A[3]:
+        # `acc = {}` filled by a loop `for f in feature_names: acc[f] = 0` before the observations are walked
+        from .common import dict_build
+        db = dict_build(A, s.events)
+        first = [(k, v, c, e) for k, v, c, e in (db.entries if db else []) if getattr(e, "aug", None) is None]
+        init_ok = len(first) == 1 and first[0][2] is not None and len(first[0][2].loops) == 1 and \
+            not first[0][2].guards and not first[0][2].loops[0].comp and first[0][2].loops[0].iter == FEATURE_NAMES and \
+            first[0][0] == ("elem", first[0][2].loops[0].lid) and const_value(first[0][1]) == 0
+        if init_ok:
+            order = {id(ev): i for i, (ev, _) in enumerate(walk(s.events, structural=True))}
+            init_ok = order.get(id(first[0][3]), 1 << 30) < order.get(id(O), -1)    # before the observations are walked
     run.check(init_ok, "AVERAGE", f"{method}.acc-init", W(s.fn.lineno), fq, f"accumulators {ir.show_nl(A)[:120]}",
               f"accumulators must start at 0 for exactly the feature names; found {ir.show_nl(A)[:160]}",
               "acc = {f: 0 for f in feature_names}")
